@@ -19,6 +19,10 @@ SEVEN = {"sa C kernel": ["sa_c"], "sa Python kernel": ["sa_py", "sa_initial"], "
          "rand": ["rand", "rand_real"]}
 
 
+REUSE_CFGS = ["seq", "bf", "hilbert", "rcm", "rand_real", "sa_c", "sa_py"]
+DETERMINISTIC = {"seq", "bf", "hilbert", "rcm", "rand_real"}     # same arguments => same placement
+
+
 # ------------------------------------------------------------------ generator
 def gen_case(rng, idx):
     mode = rng.choice(["unit", "unit", "general", "general", "general", "tight"])
@@ -164,7 +168,8 @@ def gen_case(rng, idx):
     return dict(machine=dict(w=w, h=h, res=caps, exc=exc, dead=[list(c) for c in dead], dead_links=dead_links),
                 vres=vres, nets=nets, constraints=cons, vorder=vorder, corder=corder,
                 effort=rng.choice([0, 0.1, 1]), seed=rng.randrange(1 << 30), mode=mode, idx=idx,
-                sa_steps=rng.choice([0, 50, 100, 300]))
+                sa_steps=rng.choice([0, 50, 100, 300]),
+                reuse=[rng.choice(REUSE_CFGS) for _ in range(3)])
 
 
 def enumerate_small():
@@ -195,7 +200,8 @@ def enumerate_small():
                         vres=[[v, [[0, d]]] for v, d in enumerate(dem)],
                         nets=[[0, list(range(1, n)), 1]] if n >= 2 else [],
                         constraints=cons, vorder=None, corder=None, effort=0.1, seed=idx, mode="enumerated",
-                        idx=100000 + idx, sa_steps=0))
+                        idx=100000 + idx, sa_steps=0,
+                        reuse=[REUSE_CFGS[(idx + j * (1 + idx // 7)) % 7] for j in range(3)]))
     return cases
 
 
@@ -346,11 +352,26 @@ def oracle(chk, c, r):
     dom = prob.in_domain()
     prem = prob.completeness_premise(c) if dom else "out of domain"
     ov = orders_valid(c, prob)
+    prev = None
     for cfg, o in r["out"].items():
-        chk.count("outcome:%s:%s" % (cfg, o[0] if o[0] != "fail" else "fail%d" % o[1]))
+        reused = cfg.startswith("reuse")
+        base = cfg.split(":", 1)[1] if reused else cfg
+        chk.count("outcome:%s:%s" % (base if not reused else "reuse:" + base, o[0] if o[0] != "fail" else "fail%d" % o[1]))
         if (cfg == "seq_custom" and not ov) or o[0] == "skipped":
             continue
         replay = dict(case=c, config=cfg, observed=o)
+        if reused:
+            if prev is not None:
+                chk.count("reuse-pair:%s>%s" % (prev, base))
+            replay["sequence"] = c.get("reuse")
+            fresh_o = r["out"].get(base)
+            if (base in DETERMINISTIC and dom and fresh_o is not None and fresh_o[0] not in ("hang", "skipped")
+                    and o[0] != "hang" and fresh_o[:2] != o[:2]):
+                chk.fail_input("reuse-differs:%s-after-%s" % (base, prev or "nothing"),
+                               "%s.place on argument objects already used by %s gives %r, on freshly built equal "
+                               "objects %r" % (base, prev or "no other placer", o[:2], fresh_o[:2]),
+                               dict(replay, fresh=fresh_o))
+            prev = base
         if o[0] == "hang":
             chk.fail_input("nonterminating:" + cfg, "%s.place does not terminate (no result within the time limit)" % cfg,
                            replay)
@@ -577,6 +598,10 @@ def run(chk, args):
     if results and results[0]["aux"].get("default_kernel") != "CKernel":
         chk.oblige("default SA kernel is the C kernel (rig_c_sa importable)", False,
                    "default kernel is %r" % results[0]["aux"].get("default_kernel"))
+    if not args.replay and len(cases) >= 500:
+        missing = [a + ">" + b for a in REUSE_CFGS for b in REUSE_CFGS if not chk.dist.get("reuse-pair:%s>%s" % (a, b))]
+        chk.oblige("object-reuse stream: all 49 ordered pairs of the 7 placers run on the same argument objects", not missing,
+                   "missing pairs: %s" % missing)
     for name, cfgs in SEVEN.items():
         chk.oblige("placer configuration exercised: " + name, not cases or all(ran.get(cfg, 0) > 0 for cfg in cfgs[:1]))
     # model: correspondence + validator, evaluated in Coq
